@@ -12,6 +12,7 @@ ExpPos(gen, p) ==
   CASE gen = "triangle" -> <<p.P0, p.P1, p.P2>>
     [] gen = "quad" -> <<p.P0, p.P1, M3(V3(p.P1, p.P2), p.P0), p.P2>>
     [] gen = "tetrahedron" -> <<p.P0, p.P1, p.P2, p.P3>>
+    [] gen = "hexahedron" -> p.pts
     [] gen = "hexahedron_4pts" -> LET X == M3(p.P1, p.P0)
                                       Y == M3(p.P2, p.P0)
                                   IN <<p.P0, V3(p.P0, X), V3(V3(p.P0, X), Y), V3(p.P0, Y), p.P3, V3(p.P3, X), V3(V3(p.P3, X), Y), V3(p.P3, Y)>>
@@ -34,6 +35,8 @@ Judge(c, s, e) ==
                                      ELSE \A i \in 1..Len(e.m) : e.m[i] = e.p.want_m), "vertices_on_the_named_surface_at_the_requested_radius_and_centre" >>,
                    << e.derr <= 2, "centre_realises_the_requested_angle_defect" >>,        \* rings only: micro-radians off the (clamped) request; the bisection stops at 1e-6
                    << ExpPos(e.gen, e.p) = <<>> \/ e.pos = ExpPos(e.gen, e.p), "vertices_on_the_requested_corners" >>,
+                   << e.gen # "axis_aligned_cube" \/ (Len(e.pos) = 8 /\ SeqToSet(e.pos) = { <<a, b, cc>> : a \in {-1, 1}, b \in {-1, 1}, cc \in {-1, 1} }),
+                      "corners_of_the_unit_cube_centred_at_the_origin" >>,
                    << e.box = <<>> \/ \A i \in 1..Len(e.box) : e.box[i][3] = <<0, 1>> /\ \A k \in 1..2 :
                           e.box[i][k][2] > 0 /\ e.box[i][k][1] >= 0 /\ e.box[i][k][1] <= e.box[i][k][2], "vertices_in_the_unit_square" >>,
                    << e.p.colored = 0 \/ e.p.volume = 1 \/ "color" \in SeqToSet(e.fattrs), "colored_switch_gives_a_color_attribute" >> >>, cls, "", s)
